@@ -46,6 +46,7 @@ from static_frame.core.util import DEFAULT_SORT_KIND
 from static_frame.core.util import DepthLevelSpecifier
 from static_frame.core.util import DTYPE_DATETIME_KIND
 from static_frame.core.util import DTYPE_INT_DEFAULT
+from static_frame.core.util import DTYPE_INT_KINDS
 from static_frame.core.util import DTYPE_BOOL
 from static_frame.core.util import DtypeSpecifier
 from static_frame.core.util import EMPTY_ARRAY
@@ -940,7 +941,11 @@ class Index(IndexBase):
                 if key.dtype != DTYPE_INT_DEFAULT: #type: ignore
                     # if key is an np.array, it must be an int or bool type
                     # could use tolist(), but we expect all keys to be integers
+                    key_src = key
                     key = key.astype(DTYPE_INT_DEFAULT) #type: ignore
+                    if key_src.dtype.kind not in DTYPE_INT_KINDS and not (key == key_src).all(): #type: ignore
+                        # a value that is not equal to an integer is not a label
+                        raise KeyError(key_src[key != key_src][0]) #type: ignore
                 if len(key) and key.min() < 0: #type: ignore
                     raise KeyError(key.min()) #type: ignore
             elif key.__class__ is slice:
